@@ -11,6 +11,7 @@ import (
 	"log/slog"
 	"net/http"
 	"net/http/httptest"
+	"runtime"
 	"sort"
 	"strings"
 	"sync"
@@ -58,7 +59,7 @@ type c40Case struct {
 	ExtZstd bool `json:"ext_zstd,omitempty"`
 }
 
-var c40Kinds = []string{"unary", "unary", "unary", "big", "rpc_describe", "health", "landing", "describe_page", "notfound", "options", "wellknown", "sticky", "sticky", "prod", "exch", "upload_url", "unknown"}
+var c40Kinds = []string{"unary", "unary", "unary", "big", "rpc_describe", "health", "landing", "describe_page", "notfound", "options", "wellknown", "sticky", "sticky", "sticky_shared", "prod", "exch", "upload_url", "unknown"}
 
 func genC40(t *rapid.T) c40Case {
 	c := c40Case{
@@ -153,9 +154,16 @@ func (m *c40Mem) get(u string) ([]byte, string, bool) {
 	return d, m.encs[u], ok
 }
 
-type c40State struct{ tag string }
+// c40State is deliberately unsynchronised: the framework promises that calls
+// bearing one session (a teardown included) never run concurrently, so plain
+// fields are what an application would write. The race detector judges it.
+type c40State struct {
+	tag    string
+	uses   int
+	closed bool
+}
 
-func (s *c40State) Close() error { return nil }
+func (s *c40State) Close() error { s.closed = true; return nil }
 
 type c40Probe struct {
 	Tag string `json:"tag"`
@@ -196,6 +204,11 @@ func newC40Server(c c40Case, hookFails int) *c40Server {
 			st, _ := ctx.Session().(*c40State)
 			if st == nil {
 				return "", &vgirpc.RpcError{Type: "NoSession", Message: "no session"}
+			}
+			st.uses++
+			runtime.Gosched()
+			if st.closed {
+				return "", &vgirpc.RpcError{Type: "ClosedUnderHandler", Message: "the session state was closed while this handler was running on it"}
 			}
 			return "used:" + st.tag + ":" + pr.Tag, nil
 		}
@@ -474,6 +487,45 @@ func (cl *c40Client) run(f c40Flow) {
 		}
 		if r3, o3 := cl.do(f, "DELETE", "/__session__", nil, map[string]string{"VGI-Session": tok}); !o3.HookFail && o3.Panic == "" && r3.Status != http.StatusNoContent {
 			o3.Problem = fmt.Sprintf("DELETE of an own live session answered %d", r3.Status)
+		}
+	case "sticky_shared":
+		// one session used by several requests at once, one of them its teardown
+		resp, o, _ := cl.probe(f, "open", tag, map[string]string{"VGI-Session-Accept": "true"})
+		tok := resp.Header.Get("VGI-Session")
+		if o.HookFail || o.Panic != "" || o.Problem != "" || tok == "" {
+			return
+		}
+		var wg sync.WaitGroup
+		var mu sync.Mutex
+		var problems []string
+		for k := 0; k < 4; k++ {
+			wg.Add(1)
+			go func(k int) {
+				defer wg.Done()
+				sub := &c40Client{s: cl.s, gid: cl.gid*100 + k + 1}
+				if k == 2 {
+					if r3, o3 := sub.do(f, "DELETE", "/__session__", nil, map[string]string{"VGI-Session": tok}); !o3.HookFail && o3.Panic == "" && r3.Status != http.StatusNoContent && r3.Status != http.StatusOK {
+						mu.Lock()
+						problems = append(problems, fmt.Sprintf("DELETE answered %d", r3.Status))
+						mu.Unlock()
+					}
+					return
+				}
+				r, o2 := sub.do(f, "POST", "/p_kind", lib.BuildRequest("p_kind", lib.ScriptBatch(fmt.Sprintf(`{"tag":"%su%d","act":"use"}`, tag, k)), lib.ReqOpts{}), map[string]string{"VGI-Session": tok})
+				if o2.HookFail || o2.Panic != "" {
+					return
+				}
+				// either it ran on the live session, or the session was already gone
+				if _, ek, _, err := sub.data(r); err == nil && strings.Contains(ek, "ClosedUnderHandler") {
+					mu.Lock()
+					problems = append(problems, "a use handler saw its session state closed while it was running")
+					mu.Unlock()
+				}
+			}(k)
+		}
+		wg.Wait()
+		if len(problems) > 0 {
+			o.Problem = strings.Join(problems, "; ")
 		}
 	case "big":
 		size := 20000 + f.Pad
